@@ -79,6 +79,10 @@ TraceBuilt ==
              <<"C11.by_label_preserves_strata", ~ok \/ ~ByLabel(cfg) \/ M = "proportion" \/
                   (smp.ep = src.ep /\ smp.en = src.en /\
                    (M = "replacement" => (Len(smp.pos) = Len(src.pos) /\ Len(smp.neg) = Len(src.neg))))>>,
+             (* smoothing adds kernel noise of the order of the spread of the scores: no smoothed score   *)
+             (* lies further than three score ranges outside the source's range                       *)
+             <<"C11.smoothed_scores_stay_near_the_source", ~ok \/ ~("smooth_near_source" \in DOMAIN e) \/
+                  e.smooth_near_source>>,
              <<"C11.proportion_without_replacement", ~ok \/ M # "proportion" \/ ProportionOK(src, cfg, smp)>>,
              <<"DRIFT.sample_model", ~ok \/ ~complete \/ smp = SampleFrom(src, cfg, run.draws)>>,
              <<"DRIFT.calls_left", ~ok \/ run.drift \/ run.smooth \/ complete>>}))
